@@ -313,3 +313,25 @@ func (c *Client) Invoke(res *corpus.Resource, m *corpus.MethodSpec, call *Call, 
 
 // SetTransport replaces the transport below the wire tap (scripted responses).
 func (c *Client) SetTransport(rt http.RoundTripper) { c.tap.rt = rt }
+
+// KeyReadingFilter is a well-behaved filter: before the resource method runs it looks at the request's path keys (an
+// audit log, an authorisation check), afterwards it does nothing. Calls must come out the same with or without it.
+type KeyReadingFilter struct{}
+
+func (KeyReadingFilter) PreRequest(req *http.Request) (context.Context, error) {
+	for _, r := range restli.GetEntitySegmentsFromContext(req.Context()) {
+		_, _ = r.ReadRawBytes()
+	}
+	_ = restli.GetMethodFromContext(req.Context())
+	return nil, nil
+}
+
+func (KeyReadingFilter) PostRequest(context.Context, http.Header) error { return nil }
+
+// WithKeyReadingFilter returns the filter list for a server: nil, or the key-reading filter.
+func WithKeyReadingFilter(on bool) []restli.Filter {
+	if !on {
+		return nil
+	}
+	return []restli.Filter{KeyReadingFilter{}}
+}
